@@ -1,5 +1,6 @@
 """C11 — Kepler's equation is solved; two-body relations hold."""
 import math
+from fractions import Fraction as Fr
 from vlib import common as K
 from vlib.impl import load
 
@@ -27,22 +28,22 @@ EXPLANATION = ("kepler_equation regenerated from /repo is evaluated symbolically
 CLAUSES = {
     "E - e sin E = M (mod 360) to 5e-8 deg, every e in [0,1), every real M (any sign / number of turns)":
         "proved [ideal, C11_kepler; bound (1+e)*1e-10 rad]; binary64 searched (5e-8 deg)",
-    "E lies in the same half revolution as M": "proved [ideal, C11_kepler: sign of E = sign of M reduced to (-180,180]]; binary64 searched",
+    "E lies in the same half revolution as M": "proved [ideal, C11_kepler: sign of E = sign of M reduced to (-180,180]]; binary64 searched LITERALLY (exact rational reduction of M and E, halves [0,180] and [180,360]) also for M within 1e-10..1e-5 of k*180; only for M exactly on a boundary may E sit on either side of it",
     "tan(v/2) = sqrt((1+e)/(1-e)) tan(E/2), v in the half revolution of E": "proved [ideal, C11_kepler]; binary64 searched (atan2 form, 1e-9 deg)",
     "an eccentricity outside [0,1) (e < 0, e >= 1: parabolic/hyperbolic) is refused with ValueError (guard of /repo b141fbd; e = 1.0 used to raise ZeroDivisionError)":
         "proved [ideal, C11_kepler_refuses]; binary64 searched (e in {1, 1+ulp, 1.5, -ulp, -0.5, 1e300, inf, int 1, int 2, int -1}); e = nan is not refused (both comparisons are false) and runs the loop - outside the property's quantifier",
     "kepler_equation never raises / never runs out of loop fuel for e in [0,1)": "proved [ideal, C11_kepler (result is a pair of Angles), C11_halvings: exactly 34 halvings]",
     "the loop is the bisection of the spec; n-th estimate within 2 d/2^n of the unique root": "proved [spec, C11_bisection_spec; bridge = step/leave equations of the generated fix, inside C11_kepler]",
     "speed at r = a(1-e), a(1+e) equals perihelion/aphelion speed (to the 4e-6 relative disagreement of the literals 42.1218/sqrt2 vs 29.7847)":
-        "proved [ideal, C11_visviva]; binary64 searched",
+        "proved [ideal, C11_visviva]; binary64 searched.  The property text gives no number for 'equals': 4e-6 (relative) is not a tolerance of ours but the measured disagreement of the library's own constants, 42.1218/sqrt(2) = 29.784614 against 29.7847 (3.008e-6, theorem literals_agree); with consistent constants the relation is exact in the ideal instance.  The oracle uses 4e-6*v (+1e-9*v_perihelion at aphelion for the cancellation in 1/r - 1/(2a) near e = 1)",
     "perihelion speed * aphelion speed = squared circular speed 29.7847^2/a": "proved exactly [ideal, C11_visviva]; binary64 searched (1e-12 rel)",
     "orbit length between 2 pi b and 2 pi a (both formulas, all e in [0,1))": "proved [ideal, C11_length]; binary64 searched",
-    "orbit length continuous across the switch at e = 0.95 (jump < a/1000)": "proved [ideal, C11_length_switch: |L(e) - L(0.95)| <= a/1000 for e in [0.94999, 0.95)]; binary64 searched at 0.95 -/+ 1 ulp",
+    "orbit length continuous across the switch at e = 0.95 (jump < a/1000)": "proved [ideal, C11_length_switch: |L(e) - L(0.95)| <= a/1000 for e in [0.94999, 0.95)]; binary64 searched at 0.95 -/+ 1 ulp.  The text says 'continuous' without a number; the two formulas of the library differ by 6.36e-4*a at e = 0.95 (L1 = 4.411321a, L2 = 4.410686a), so literal continuity is false by that amount by construction; a/1000 is this measured jump of the library's formulas rounded up, i.e. the clause checked is 'the jump is the known 6.4e-4 a and not larger'",
     "k = (1 + cos i)/2, k in [0,1], i in [0,180] for triangle-feasible distances": "proved [ideal, C11_phase]; binary64 searched",
     "node passage: radius r = a(1-e^2)/(1 + e cos v), v = -omega (ascending) / 180-omega (descending); time offset = (E - e sin E)/n":
         "proved [ideal, C11_nodes_elliptic: closed form of the generated function + conic identity]; binary64 searched",
     "node passage (parabolic): r = q(1+s^2) = 2q/(1+cos v), time offset 27.403895 s(s^2+3) q^1.5": "proved [ideal, C11_nodes_parabolic]; binary64 searched",
-    "node passage -> Kepler's equation at that time -> true anomaly -omega / 180-omega": "unproved (searched): composition through Epoch arithmetic and the Kepler residual; searched with conditioning-scaled tolerance for e <= 0.97",
+    "node passage -> Kepler's equation at that time -> true anomaly -omega / 180-omega": "unproved (searched): composition through Epoch arithmetic and the Kepler residual; searched over the whole quantifier (e up to 0.999999, omega 0..360 incl. v = 180 deg) with the tolerance 2*(dv/dM)*(5e-8 deg Kepler residual + rounding of the stored JDE) + 1e-9 deg, dv/dM = (1+e cos v)^2/(1-e^2)^1.5; nothing skipped for the elliptic case.  Parabolic (not in the property text): skipped only at v = 180 deg exactly (point at infinity) and where the passage instant falls outside the years an Epoch can hold (offset ~ tan^3(v/2))",
     "binary64 rounding of all the above (accuracy near e -> 1, M -> 0)": "unproved (searched with the property's tolerances; correspondence is bit-exact with traced libm)",
 }
 
@@ -188,14 +189,17 @@ def search(rng, tier, deep):
         if not res <= 5e-8:
             report("kepler-residual", "kepler_equation(%r, Angle(%r)): E=%r, E - e sin E - M = %.3e deg (mod 360) > 5e-8"
                    % (e, M, Ed, res), [e, M], rep)
-        Mr = M % 360.0
-        if min(Mr, abs(Mr - 180.0), 360.0 - Mr) > 1e-6:
-            if (Mr < 180.0) != ((Ed % 360.0) < 180.0) or not (-180.0 <= Ed <= 180.0):
-                report("kepler-half", "kepler_equation(%r, Angle(%r)): E=%r is not in the half revolution of M (M mod 360 = %r)"
-                       % (e, M, Ed, Mr), [e, M], rep)
-        elif not (-180.0 - 1e-6 <= Ed <= 180.0 + 1e-6) or min(cdist(Ed, 0.0), cdist(Ed, 180.0)) > 1.0 + 200 * e:
-            report("kepler-half", "kepler_equation(%r, Angle(%r)): E=%r far from the half revolution boundary M sits on"
-                   % (e, M, Ed), [e, M], rep)
+        # same half revolution, literally, also for M within 1e-9 of k*180 (the quantifier names them): exact
+        # rational reduction of the value the function sees (the Angle's stored degrees; the constructor's
+        # reduction is exact) and of E; lower half = [0,180], upper half = [180,360] (0 = 360); only for M
+        # EXACTLY on a boundary (0 or 180 mod 360) do both halves count, i.e. E may sit on either side of it
+        Mr = Fr(float(Angle(M))) % 360
+        Ep = Fr(Ed) % 360
+        lowM, upM = (0 <= Mr <= 180), (Mr >= 180 or Mr == 0)
+        lowE, upE = (0 <= Ep <= 180), (Ep >= 180 or Ep == 0)
+        if not (-180.0 <= Ed <= 180.0) or not ((lowM and lowE) or (upM and upE)):
+            report("kepler-half", "kepler_equation(%r, Angle(%r)): E=%r is not in the half revolution of M (M mod 360 = %r)"
+                   % (e, M, Ed, float(Mr)), [e, M], rep)
         vex = 2.0 * math.degrees(math.atan2(math.sqrt(1 + e) * math.sin(Ed * D2R / 2), math.sqrt(1 - e) * math.cos(Ed * D2R / 2)))
         if not cdist(vd, vex) <= 1e-9:
             report("kepler-true-anomaly", "kepler_equation(%r, Angle(%r)): v=%r but tan(v/2)=sqrt((1+e)/(1-e))tan(E/2) gives %r"
@@ -307,15 +311,13 @@ def search(rng, tier, deep):
 
     # ---- node passages
     for _ in range(nk // 4):
-        e = min(gen_e(rng), 0.97)
+        e = gen_e(rng)
         a = gen_a(rng)
-        om = rng.choice([rng.uniform(0.01, 359.99), 90.0, 270.0, 111.84644, 1.0, 359.0, 179.0, 181.0])
+        om = rng.choice([rng.uniform(0.01, 359.99), 90.0, 270.0, 111.84644, 1.0, 359.0, 179.0, 181.0, 180.0, 179.9999, 0.0001])
         asc = rng.random() < 0.5
         y, mo, d = rng.randint(1700, 2300), rng.randint(1, 12), rng.uniform(1, 28)
         stats["evaluations"] += 1
         vwant = (-om if asc else 180.0 - om)
-        if cdist(vwant, 180.0) < 0.5:
-            continue
         rep = ("t = Epoch(%d, %d, %s); tt, r = passage_nodes_elliptic(Angle(%s), %s, %s, t, ascending=%s); "
                "n = 0.9856076686/(%s**1.5); E, v = kepler_equation(%s, Angle(n*(tt - t))); print(tt - t, r, v())"
                % (y, mo, fl(d), fl(om), fl(e), fl(a), asc, fl(a), fl(e)))
@@ -346,6 +348,15 @@ def search(rng, tier, deep):
         q = a
         rep2 = ("t = Epoch(%d, %d, %s); tt, r = passage_nodes_parabolic(Angle(%s), %s, t, ascending=%s); print(tt - t, r)"
                 % (y, mo, fl(d), fl(om), fl(q), asc))
+        s0 = math.tan(vwant * D2R / 2)
+        if math.cos(vwant * D2R / 2) == 0.0:
+            continue        # v = 180 deg exactly: the parabola's point at infinity, r and the time are undefined
+        if not (0.0 <= t.jde() + 27.403895 * (s0 ** 3 + 3 * s0) * q * math.sqrt(q) <= 5.4e6):
+            # the passage instant lies outside the years -4712..10000 an Epoch can hold (near v = 180 deg the offset
+            # grows like tan^3(v/2): 1e18 days at omega = 179.9999); Epoch(jde) itself fails there
+            # (UnboundLocalError in get_date for JDE ~1e19) - not a statement of this property, skipped
+            stats["skipped_parabolic_out_of_epoch_range"] = stats.get("skipped_parabolic_out_of_epoch_range", 0) + 1
+            continue
         try:
             tt, r = Co.passage_nodes_parabolic(Angle(om), q, t, ascending=asc)
             dt = tt - t
@@ -353,7 +364,8 @@ def search(rng, tier, deep):
             report("nodes-raises", "passage_nodes_parabolic raises %s (omega=%r q=%r asc=%r)" % (type(ex).__name__, om, q, asc), [om, q, asc], rep2)
             continue
         s = math.tan(vwant * D2R / 2)
-        rw = 2 * q / (1 + cv)
+        ch = math.cos(vwant * D2R / 2)
+        rw = q / (ch * ch)  # = 2q/(1 + cos v), in the form that is well conditioned near v = 180
         if not abs(r - rw) <= 1e-9 * rw:
             report("nodes-parabolic-radius", "passage_nodes_parabolic(omega=%r, q=%r, ascending=%r): r=%r, parabola gives %r" % (om, q, asc, r, rw),
                    [om, q, asc], rep2)
@@ -364,7 +376,7 @@ def search(rng, tier, deep):
 
     stats["rule"] = ("kepler: e in [0,0.999999] (uniform, 1-10^-k, special), M in [-1e4,1e4] deg incl. 180k and 180k +- 1e-10..1e-5; "
                      "residual mod 360 <= 5e-8 deg, half revolution, true anomaly (atan2 form) 1e-9 deg; speeds/length a in 0.3..100 AU; "
-                     "triangle-feasible (r, Delta, R) from the angle at the Sun; node passage -> Kepler -> v = -omega / 180-omega (e <= 0.97)")
+                     "triangle-feasible (r, Delta, R) from the angle at the Sun; node passage -> Kepler -> v = -omega / 180-omega (all e of the quantifier, tolerance scaled by dv/dM)")
     stats["samples"] = [{"input": [0.99, 2.0], "checked": "E=32.361007: E - e sin E - M, half turn, v=152.542134"},
                         {"input": [0.96727426, 17.9400782], "checked": "vis-viva at q and Q, product, length 77.06 in [2 pi b, 2 pi a]"}]
     return findings, stats
